@@ -812,6 +812,38 @@ def run_louvain_correspondence(ctx, items):
                           case=case, check='correspondence', isolated_nodes=case['isolated_nodes'])
 
 
+    # ---- the closed form regenerated from louvain_embedding.py (Gen/NpLouvainEmbedding.v; theorems source_louvain_embedding_* of
+    #      Props/C09.v) evaluated inside Coq over exact rationals on the reported labels must reproduce embedding_ / embedding_col_
+    src, sexprs = [], []
+    for case, out in items:
+        if 'err' in out or len(src) >= (30 if getattr(ctx, 'tier', 'quick') == 'quick' else 200):
+            continue
+        a = dense(case['m'])
+        nr, nc = a.shape
+        if nr + nc > 14 or len(out['labels']) != nc:
+            continue
+        mat = qm(a.tolist())
+        lab = clist([int(x) for x in out['labels']], lambda z: '(%d)%%Z' % z)
+        e = ('map (map qz3) (qmresult (qvdenote (("input_matrix", wmat 0%%Q %s %d %d) :: ("self.labels_", WLab %s) :: nil) '
+             'src_louvain_embedding))' % (mat, nr, nc, lab))
+        sexprs.append(e)
+        src.append((case, out))
+    svals = safe_coq_eval(ctx, 'c09src', ['Base.Util', 'Model.NpExpr', 'Model.NpVec', 'Gen.NpLouvainEmbedding'], sexprs,
+                          prelude='From Coq Require Import String.\nLocal Open Scope string_scope.\n'
+                                  'Definition qz3 (q : Q) : Z * Z := (Qnum q, Zpos (Qden q)).\n', shard=30) if sexprs else []
+    n_src = 0
+    for (case, out), v in zip(src, svals or []):
+        n_src += 1
+        ctx.count('source_term:LouvainEmbedding', ('src', case), True)
+        me = np.array([[float(Fraction(x[0], x[1])) for x in r] for r in v], dtype=float)
+        ie = np.asarray(out['embedding'], dtype=float)
+        if me.size != ie.size or not close(me.reshape(ie.shape), ie, 1e-12):
+            ctx.violation('LouvainEmbedding.fit', 'the closed form regenerated from louvain_embedding.py (src_louvain_embedding), evaluated '
+                          'with the array semantics of Model/NpVec.v on the reported labels, differs from embedding_', case=case,
+                          expected=me.tolist(), observed=ie.tolist(), check='source_term', isolated_nodes=case['isolated_nodes'])
+    ctx.extra['source_terms_evaluated'] = ctx.extra.get('source_terms_evaluated', 0) + n_src
+
+
 # ------------------------------------------------------------------------------------------------
 # validators inside Coq
 # ------------------------------------------------------------------------------------------------
@@ -865,6 +897,8 @@ class Recorder:
         ctx.proof_broken.extend(self.proof_broken[:max(0, 12 - len(ctx.proof_broken))])
         if self.extra.get('model_dead'):
             ctx.extra['model_dead'] = sorted(set(ctx.extra.get('model_dead', [])) | set(self.extra['model_dead']))
+        if self.extra.get('source_terms_evaluated'):
+            ctx.extra['source_terms_evaluated'] = ctx.extra.get('source_terms_evaluated', 0) + self.extra['source_terms_evaluated']
 
 
 def arpack_refused(r):
